@@ -39,6 +39,8 @@ def cand_string(rng):
         s[rng.randrange(n)] = rng.choice(b"+/=. \n\r\x00\xff~@[`{")
     if r == 3 and n:
         s[rng.randrange(n)] = rng.randrange(256)
+    if r == 4 and n:
+        s[rng.randrange(n)] = rng.choice([0x00, 0xFF, 0x7F, 0x80, 0x40, 0x5B, 0x60, 0x7B, 0x2F, 0x3A, 0x2C, 0x2E])
     return bytes(s)
 
 
@@ -60,7 +62,9 @@ def gen(rng, tier):
         if rng.randrange(4) == 0:
             user = rng.choice([0, 1, 0xFFFFFFFF, 0x80000000])
         ops.append("licstr1 %s %d %d" % (hx(key), user, sign))
-        ops.append("licrt %d" % (1 + i % 3))
+        idx = rng.choice([1, 1, 0, 2, 54, 55, 118, 119, 127, 128, 300, 16383, 16384, rng.getrandbits(14), rng.getrandbits(32)])
+        ops.append("licrt %d %d %d %d" % (1 + i % 3, rng.choice([user, rng.getrandbits(7), rng.getrandbits(14), rng.getrandbits(21)]),
+                                          rng.choice([sign, rng.getrandbits(7), rng.getrandbits(14), rng.getrandbits(21)]), idx))
         # v1-style strings of every length (D13: short bodies), with and without the ":1" suffix
         ln = rng.choice([0, 1, 3, 4, 5, 8, 16, 23, 24, 27, 28, 31, 32, 33, 40])
         body = base64.urlsafe_b64encode(rbytes(rng, ln)).rstrip(b"=")
